@@ -1,11 +1,14 @@
 """C16 -- retries do exactly what the retry policy decided; non-idempotent statements are never
 executed speculatively."""
+import os
+
 from hypothesis import strategies as st
 
 from checks import _simfut as F
 from checks import _simutil as U
 from vlib.harness import hyp_part
 
+SERIAL = os.environ.get("VERIF_TIER") == "quick"   # heavily loaded machine: forked pool is slower than one process
 PID = "C16"
 TITLE = "Retries do exactly what the retry policy decided"
 LEVEL = "exploration"
